@@ -12,12 +12,12 @@ Case format (tree):  [db, query, style]
   ccrit  [0, sx] on C.y | [1, sx] C.parent.has(sx) | [4, a, b] | [5, a, b] | [6, a]
   query  [0, pcrit] select(P) | [1, ccrit] select(C)
          | [2, outer, target, sxp, sxc, colmode] select(P, T | T.y ..).join(P.children -> T)   target 0 C, 1 aliased(C),
-           2 of_type(Sub); colmode 0 (P, T), 1 (P, T.y), 2 (P.x, T)
+           2 of_type(Sub), 3 join(Sub, P.id == Sub.pid) (hand-written ON clause); colmode 0 (P, T), 1 (P, T.y), 2 (P.x, T)
          | [3, outer, sxc, sxp] select(C, P).join(C.parent) | [4, sxc] select(P, count(C.id)).outerjoin(P.children).group_by(P.id)
          | [5, pcrit, pcrit] select(aliased(P, union(select(P).where(a), select(P).where(b)).subquery()))
   style  0 select() + Session.execute() | 1 legacy Session.query()
 Observation: [rows, count, exists]; a row is a list of items: entity -> [object number (first occurrence, by identity), pk],
-None entity -> [], column value -> int | [].
+None entity -> [], column value -> int | [].  An exception is observed as rows [[-9]] / count -9 / exists -9.
 """
 import json
 
@@ -29,7 +29,7 @@ STATIC_MODULES = ["SAV.orm.QueryRun"]
 RULE = (
     "three fixed databases (NULL foreign keys, NULL values, parents without children, Sub and non-Sub children, "
     "duplicates under projection) x an enumerated query grammar: every atom of pcrit / ccrit over 5 column criteria and "
-    "its negation, every join shape (inner/outer x target C / aliased / of_type(Sub) x 3 column modes x 4 criteria "
+    "its negation, every join shape (inner/outer x target C / aliased / of_type(Sub) / Sub with a hand-written ON clause x 3 column modes x 4 criteria "
     "pairs), group-by and union queries, each in both styles (select()+execute, legacy Query); plus random databases "
     "(<= 4 parents, <= 5 children) with random queries of depth <= 2. Compared with the model: the rows as entity "
     "identities + primary keys / values, count, exists. non-trivial = the query navigates the relationship (join, "
@@ -148,7 +148,7 @@ def _gq(rng, db):
     if sh == 1:
         return [1, _gcc(rng)]
     if sh == 2:
-        return [2, rng.randint(0, 1), rng.randrange(3), _gsx(rng, 1), _gsx(rng, 1), rng.randrange(3)]
+        return [2, rng.randint(0, 1), rng.randrange(4), _gsx(rng, 1), _gsx(rng, 1), rng.randrange(3)]
     if sh == 3:
         return [3, rng.randint(0, 1), _gsx(rng, 1), _gsx(rng, 1)]
     if sh == 4:
@@ -168,7 +168,7 @@ def _enum_queries(db, rng, tier):
         qs.append([1, [6, a]])
     pairs = [([0], [0]), ([1, 0, 1], [0]), ([0], [5, [1, 0, 1]]), ([2], [2])]
     for outer in (0, 1):
-        for tg in (0, 1, 2):
+        for tg in (0, 1, 2, 3):
             for m in (0, 1, 2):
                 for sp, sc in pairs if tier == "thorough" else rng.sample(pairs, 2):
                     qs.append([2, outer, tg, sp, sc, m])
@@ -355,7 +355,10 @@ def _orm_stmt(q, s, legacy):
         else:
             T, on = Sub, P.children.of_type(Sub)
         cols = [P, T] if colmode == 0 else [P, T.y] if colmode == 1 else [P.x, T]
-        st = sel(*cols).join(on, isouter=bool(outer))
+        if target == 3:
+            st = sel(*cols).join(Sub, P.id == Sub.pid, isouter=bool(outer))
+        else:
+            st = sel(*cols).join(on, isouter=bool(outer))
         return getattr(st, wh)(_sx(sxp, P.x), _sx(sxc, T.y)).order_by(P.id, T.id)
     if sh == 3:
         _, outer, sxc, sxp = q
@@ -388,7 +391,7 @@ def _core_stmt(q, s):
         _, outer, target, sxp, sxc, colmode = q
         T = ct.alias() if target == 1 else ct
         on = T.c.pid == pt.c.id
-        if target == 2:
+        if target in (2, 3):
             on = on & (T.c.kind == 1)
         cols = [pt.c.id, T.c.id] if colmode == 0 else [pt.c.id, T.c.y] if colmode == 1 else [pt.c.x, T.c.id]
         j = pt.join(T, on, isouter=bool(outer))
@@ -428,16 +431,32 @@ def impl(c):
         kinds = _kinds(q)
         with Session(e) as s:
             st = _orm_stmt(q, s, bool(style))
-            if style == 0:
-                res = [tuple(r) for r in s.execute(st).all()]
-                cnt = s.scalar(select(func.count()).select_from(st.order_by(None).subquery()))
-                exi = s.scalar(select(st.order_by(None).exists()))
-            else:
-                res = st.all()
-                if len(kinds) == 1:
-                    res = [(r,) for r in res]
-                cnt = st.count()
-                exi = s.query(st.exists()).scalar()
+            # an exception is an observation (-9), never a crash of the driver
+            try:
+                if style == 0:
+                    res = [tuple(r) for r in s.execute(st).all()]
+                else:
+                    res = st.all()
+                    if len(kinds) == 1:
+                        res = [(r,) for r in res]
+            except Exception:
+                res = None
+            try:
+                if style == 0:
+                    cnt = s.scalar(select(func.count()).select_from(st.order_by(None).subquery()))
+                else:
+                    cnt = st.count()
+            except Exception:
+                cnt = -9
+            try:
+                exi = s.scalar(select(st.order_by(None).exists())) if style == 0 else s.query(st.exists()).scalar()
+            except Exception:
+                exi = -9
+            if res is None:
+                core = [list(r) for r in s.execute(_core_stmt(q, s)).all()]
+                _LAST.clear()
+                _LAST[json.dumps(c["in"])] = core
+                return [[[-9]], cnt, exi if exi == -9 else int(bool(exi))]
             seen = {}
             rows = []
             for r in res:
@@ -453,7 +472,7 @@ def impl(c):
             core = [list(r) for r in s.execute(_core_stmt(q, s)).all()]
         _LAST.clear()
         _LAST[json.dumps(c["in"])] = core
-        return [rows, cnt, int(bool(exi))]
+        return [rows, cnt, exi if exi == -9 else int(bool(exi))]
     finally:
         e.dispose()
 
@@ -482,6 +501,10 @@ def oracle(c, obs):
         impl(c)
     core = _LAST[key]
     rows, cnt, exi = obs
+    if rows == [[-9]]:
+        return "rows: the ORM query raised; the equivalent Core query returns %s" % (core,)
+    if cnt == -9 or exi == -9:
+        return "count: count() / exists() raised for a query that returns %d rows" % len(rows)
     kinds = _kinds(q)
     vals = [[(it[1] if it else None) if k else _n(it) for k, it in zip(kinds, r)] for r in rows]
     # identity map: one object per (class, primary key)
